@@ -51,6 +51,15 @@ pub fn run(prop: &str, rep: &Report) {
 }
 
 pub fn replay(case: &Value) -> Vec<Violation> {
+    if case["kind"] == "rerun_check" {
+        // history-dependent violation: re-run the whole check and look for the recorded signature
+        let prop = case["property"].as_str().unwrap_or("");
+        let tier = case["tier"].as_str().unwrap_or("quick");
+        let want: Vec<String> = case["signature"].as_array().map(|a| a.iter().map(|x| x.as_str().unwrap_or("").to_string()).collect()).unwrap_or_default();
+        let rep = Report::new(prop, tier, level_of(prop));
+        run(prop, &rep);
+        return rep.take_violations().into_iter().filter(|v| vec![v.stage.clone(), v.class.clone(), v.site.clone(), v.trigger.clone()] == want).collect();
+    }
     match case["kind"].as_str().unwrap_or("") {
         "issue" | "pipeline" => crate::pipeline::replay_case(case),
         "weak_selection" => c06::replay_weak(case),
@@ -66,7 +75,7 @@ pub fn replay(case: &Value) -> Vec<Violation> {
         "c03" => c03::replay(case),
         "c10" | "c10_holder" | "c10_issue" => c10::replay(case),
         "c07" | "c07_block" => c07::replay(case),
-        "c14_schedule" | "c14_history" | "c14_global" => c14::replay(case),
+        "c14_schedule" | "c14_history" | "c14_global" | "c14_names" => c14::replay(case),
         "c11_issuer" | "c11_holder" => c11::replay(case),
         "c04" | "c04_text" => c04::replay(case),
         "c08" => c08::replay(case),
